@@ -193,6 +193,7 @@ func mainCheck(args []string) int {
 				return
 			}
 			x := newFnExec(e, c, fn)
+			x.branchCovers = os.Getenv("VERIF_BRANCH_COVERS") != ""
 			func() {
 				defer func() {
 					if r := recover(); r != nil {
@@ -266,6 +267,12 @@ func mainCheck(args []string) int {
 		o := j.o
 		fnKey := o.Name[:strings.Index(o.Name, "#")]
 		solverTime[strings.SplitN(o.Solver, "=", 2)[0]] += o.Ms
+		if o.Kind == "BRANCH" {
+			if o.Result == "unsat" {
+				fmt.Printf("      unreachable-branch: %s\n", o.Name)
+			}
+			continue
+		}
 		if o.Cover {
 			covers++
 			if o.Result == "unsat" {
